@@ -42,7 +42,7 @@ TIMEOUT = {'quick': 1500, 'thorough': 10000}
 
 def cases(tier, seed):
     cs = []
-    n = 160 if tier == 'quick' else 2400
+    n = 160 if tier == 'quick' else 6000
     for i in range(n):
         backend = ['match', 'maupiti', 'match', 'maupiti', 'match-opts'][i % 5]
         cs.append({'prog_seed': seed * 1000003 + 130000 + i, 'seed': seed * 7919 + i,
